@@ -104,11 +104,23 @@ Definition wgen (alg : pystr) (claims : params) (k : nat) : wobj :=
   WObj alg claims (Some {| s_key := k; s_alg := alg; s_claims := claims |}).
 Definition wsig (alg : pystr) (claims : params) (k : nat) (salg : pystr) (sclaims : params) : wobj :=
   WObj alg claims (Some {| s_key := k; s_alg := salg; s_claims := sclaims |}).
+(* wrapped objects: header (alg, enc, cty = JWT?, what decryption does) around a JWS / bare JSON claims / other text *)
+Definition s_rsa_oaep := PS "RSA-OAEP".
+Definition s_ecdh_es := PS "ECDH-ES".
+Definition s_a256gcm := PS "A256GCM".
+Definition s_a128gcm := PS "A128GCM".
+Definition jhdr (alg enc : pystr) (cty : bool) (st : jwe_state) : jwe_wrap :=
+  {| j_alg := alg; j_enc := enc; j_cty_jwt := cty; j_state := st |}.
+Definition inner_of (w : wobj) : inner :=
+  match w with WObj a c s => IJws a c s | _ => IOther end.
+Definition wenc (h : jwe_wrap) (w : wobj) : wobj := WEnc h (inner_of w).
+Definition wencj (h : jwe_wrap) (claims : params) : wobj := WEnc h (IJson claims).
 
 (* ---- compact cases: the static part of the observed configuration (key jar, redirect URIs and response types
    of the clients) is given once per shard, the variable part per case *)
 Definition cfgvar := (bool * bool * list meth * bool * list hook * list hook * option (list pystr) * bool * Z
-                      * list (pystr * regalg * option (list pystr)))%type.
+                      * list (pystr * regalg * option (list pystr) * option pystr * option pystr)
+                      * option (list pystr) * option (list pystr))%type.
 Definition ccase := (cfgvar * docs * Z * list (op * obs))%type.
 Definition cbase := list (pystr * list pystr * list (list pystr)).
 Fixpoint find_base (b : cbase) (cid : pystr) : list pystr * list (list pystr) :=
@@ -117,12 +129,14 @@ Fixpoint find_base (b : cbase) (cid : pystr) : list pystr * list (list pystr) :=
   | (c, red, rts) :: r => if str_eqb cid c then (red, rts) else find_base r cid
   end.
 Definition expand (j : list (pystr * list (kty * nat))) (b : cbase) (dp : list pystr) (v : cfgvar) : cfg :=
-  let '(o, hp, ms, mc, hs, phs, pa, rus, t, cl) := v in
+  let '(o, hp, ms, mc, hs, phs, pa, rus, t, cl, pea, pee) := v in
   {| oidc := o; has_par := hp; methods := ms; methods_configured := mc; hooks := hs; par_hooks := phs;
      prov_algs := match pa with Some l => l | None => dp end; ru_supported := rus; ttl := t; jar := j;
-     clients := List.map (fun e => let '(cid, reg, rus') := e in
+     clients := List.map (fun e => let '(cid, reg, rus', ea, ee) := e in
                                    let '(red, rts) := find_base b cid in
-                                   {| c_id := cid; c_reg := reg; c_redirect := red; c_request_uris := rus'; c_rtypes := rts |}) cl |}.
+                                   {| c_id := cid; c_reg := reg; c_redirect := red; c_request_uris := rus'; c_rtypes := rts;
+                                      c_enc_alg := ea; c_enc_enc := ee |}) cl;
+     prov_enc_algs := pea; prov_enc_encs := pee |}.
 Definition chk_compact (j : list (pystr * list (kty * nat))) (b : cbase) (dp : list pystr) (c : ccase) : bool :=
   let '(v, d, t0, tr) := c in chk_case (expand j b dp v, d, t0, tr).
 Definition diag_compact (j : list (pystr * list (kty * nat))) (b : cbase) (dp : list pystr) (c : ccase) : list result :=
@@ -134,13 +148,22 @@ Definition ex_jar : list (pystr * list (kty * nat)) :=
    (s_c1, [(KOct, 2%nat); (KRsa, 0%nat); (KEc, 1%nat)]);
    (s_c2, [(KOct, 5%nat); (KRsa, 3%nat); (KEc, 4%nat)])].
 Definition ex_client (cid red : pystr) (reg : regalg) : client :=
-  {| c_id := cid; c_reg := reg; c_redirect := [red]; c_request_uris := None; c_rtypes := [[s_code]] |}.
+  {| c_id := cid; c_reg := reg; c_redirect := [red]; c_request_uris := None; c_rtypes := [[s_code]];
+     c_enc_alg := None; c_enc_enc := None |}.
 Definition ex_cfg (is_oidc : bool) (reg1 : regalg) : cfg :=
   {| oidc := is_oidc; has_par := true; methods := [MReqParam; MPublic; MNoneM]; methods_configured := false;
      hooks := if is_oidc then [HDoRequestUri; HPostParse; HDoRequestUri; HPostParse] else [HDoRequestUri; HPostParse];
      par_hooks := [HParRequestUri; HPostParse; HPostParse];
      prov_algs := [s_rs256; s_es256; s_hs256]; ru_supported := true; ttl := 10; jar := ex_jar;
-     clients := [ex_client s_c1 s_r1 reg1; ex_client s_c2 s_r2 RAbsent] |}.
+     clients := [ex_client s_c1 s_r1 reg1; ex_client s_c2 s_r2 RAbsent];
+     prov_enc_algs := None; prov_enc_encs := None |}.
+(* the same provider with another set of usable client-authentication methods at the authorization endpoint *)
+Definition ex_cfg_m (is_oidc : bool) (reg1 : regalg) (ms : list meth) : cfg :=
+  let g := ex_cfg is_oidc reg1 in
+  {| oidc := oidc g; has_par := has_par g; methods := ms; methods_configured := true; hooks := hooks g;
+     par_hooks := par_hooks g; prov_algs := prov_algs g; ru_supported := ru_supported g; ttl := ttl g; jar := jar g;
+     clients := clients g; prov_enc_algs := prov_enc_algs g; prov_enc_encs := prov_enc_encs g |}.
+Definition ex_hdr : jwe_wrap := jhdr s_rsa_oaep s_a256gcm false JOpens.
 Definition ex_outer : params :=
   [(k_client_id, PS_ s_c1); (k_redirect_uri, PS_ s_r1); (k_scope, PL_ [s_openid]); (k_state, PS_ s_out0);
    (k_response_type, PL_ [s_code])].
